@@ -298,6 +298,71 @@ func ruleSignalTable(c *core.Ctx) {
 	if nStores == 0 {
 		c.Fail(rule, "bus.signalHandler.addSignalUser", add.Pos(), "addSignalUser never stores the registration")
 	}
+	// a registration that is refused undoes its own work only: the connection
+	// handler it removes is the one this call created, never the handler of an
+	// entry found in the table (whose closer unregisters that other subscriber)
+	contextID := fld(c, "bus", "signalUser", "contextID")
+	var made []ssa.Value
+	for _, f := range unitOf(c, add) {
+		for _, call := range core.Calls(f) {
+			if cc := call.Common(); cc.IsInvoke() && cc.Method.Name() == "MakeHandler" {
+				if v, ok := call.(*ssa.Call); ok {
+					made = append(made, v)
+				}
+			}
+		}
+	}
+	isMade := func(v ssa.Value) bool {
+		v = core.Canon(v)
+		for _, m := range made {
+			if v == m {
+				return true
+			}
+		}
+		return false
+	}
+	for _, f := range unitOf(c, add) {
+		for i, call := range core.Calls(f) {
+			cc := call.Common()
+			if !cc.IsInvoke() || cc.Method.Name() != "RemoveHandler" || len(cc.Args) != 1 {
+				continue
+			}
+			key := fmt.Sprintf("bus.signalHandler.addSignalUser/undo@%s#%d", core.FuncKey(f), i)
+			arg := cc.Args[0]
+			own := isMade(arg)
+			if ld, ok := arg.(*ssa.UnOp); ok && !own && ld.Op == token.MUL {
+				// newUser.contextID: the field of the entry under construction
+				if fa, ok := ld.X.(*ssa.FieldAddr); ok {
+					if al, ok := fa.X.(*ssa.Alloc); ok && contextID != nil && isFieldOf(ld, contextID) {
+						own = true
+						k := 0
+						for _, r := range core.Referrers(al) {
+							fa2, ok := r.(*ssa.FieldAddr)
+							if !ok || fa2.Field != fa.Field {
+								continue
+							}
+							for _, u := range core.Referrers(fa2) {
+								if st, ok := u.(*ssa.Store); ok && st.Addr == ssa.Value(fa2) {
+									if k0, isK := core.ConstInt(st.Val); isK && k0 == 0 {
+										continue // the zero the literal starts with
+									}
+									k++
+									if !isMade(st.Val) {
+										own = false
+									}
+								}
+							}
+						}
+						if k == 0 {
+							own = false
+						}
+					}
+				}
+			}
+			c.Check(own, rule, key, call.Pos(), "a refused registration removes the handler it created",
+				"addSignalUser removes a connection handler that is not the one this call created (the handler of the subscriber already registered under that id): its closer unregisters that subscriber, so a client registering an id already in use cancels another client's subscription")
+		}
+	}
 }
 
 // resolvesTo: v is target, or a parameter of a private helper every call site
